@@ -854,7 +854,10 @@ compFileFront(EmitInfo finfo, Stab stab, FILE *fin, int *plno)
 
 	ab = compPhaseAbNorm (finfo, ab, true);
 	ab = compPhaseAbCheck(finfo, ab); /* creates the .ax file */
-	if (!compIsMoreAfterSyntax(finfo))  return ab;
+	if (!compIsMoreAfterSyntax(finfo)) {
+		if (fintMode == FINT_LOOP) scopeBindSkipStep(stab);
+		return ab;
+	}
 
 	compPhaseScoBind(finfo, stab, ab);
 	if (comsgErrorCount())	{
